@@ -331,6 +331,19 @@ func main() {
 	for _, sh := range []v3.Vec{{X: -0.2}, {X: 0.2}, {Z: -0.25}, {Y: 0.25}, {X: -0.25, Y: -0.1, Z: -0.05}, {X: 0.25, Y: 0.1, Z: 0.05}} {
 		shapes = append(shapes, shp{fmt.Sprintf("crescent: unit sphere minus copy shifted by %v", sh), sdf.Difference3D(m3(sdf.Sphere3D(1)), sph(1, sh)), 2.5, []int{8, 11, 16}, "crescent", v3.Vec{}, v3.Vec{}})
 	}
+	// the same solids a hundred times smaller / larger and far from the origin
+	for _, k := range []float64{0.01, 100} {
+		for _, si := range []int{0, 2, 7} {
+			b := shapes[si]
+			shapes = append(shapes, shp{name: fmt.Sprintf("%s scaled by %g", b.name, k), s: sdf.ScaleUniform3D(b.s, k), size: b.size * k, ns: []int{8, 11}, class: "scaled-" + b.class})
+		}
+	}
+	for _, at := range []v3.Vec{{X: 1000, Y: -1000, Z: 37.3}} {
+		for _, si := range []int{0, 2, 7} {
+			b := shapes[si]
+			shapes = append(shapes, shp{name: fmt.Sprintf("%s at %v", b.name, at), s: sdf.Transform3D(b.s, sdf.Translate3d(at)), size: b.size, ns: []int{8, 11}, class: "far-" + b.class, at: at})
+		}
+	}
 	type job struct {
 		sh shp
 		n  int
